@@ -356,6 +356,42 @@ def h_setattr(I, st, fv, args, kwargs, ctx):
     return I.setattr(st, x, n.py, v, ctx)
 
 
+def h_int(I, st, fv, args, kwargs, ctx):
+    """int(x) for numbers: truncation toward zero of a finite int / float / bool; OverflowError for
+    ±inf, ValueError for NaN; other argument types are outside the model"""
+    if not args:
+        return [(st, Conc(0))]
+    x = args[0]
+    if len(args) > 1 or kwargs:
+        raise OutOfReach("int() with a base")
+    if isinstance(x, Conc) and isinstance(x.py, (int, float, bool)):
+        try:
+            return [(st, Conc(int(x.py)))]
+        except (OverflowError, ValueError) as e:
+            return [(st, Raise(type(e).__name__))]
+    if isinstance(x, BoolV):
+        return [(st, Sym(z3.If(x.b, I.U.lit(1), I.U.lit(0))))]
+    if not isinstance(x, Sym):
+        raise OutOfReach("int() of %r" % (x,))
+    t = x.t
+    numeric = I.U.isnum(t)
+    if not I.valid(st, numeric):
+        raise OutOfReach("int() of a value that is not known to be a number")
+    out = []
+    for (q, fin) in I.branch(st, vm.kind(t) == vm.FINITE):
+        if not fin:
+            for (r, nan) in I.branch(q, vm.kind(t) == vm.NAN):
+                out.append((r, Raise("ValueError" if nan else "OverflowError")))
+            continue
+        r = I.U.fresh("int")
+        fl = z3.ToInt(vm.rv(t))
+        trunc = z3.If(vm.rv(t) >= 0, fl, -z3.ToInt(-vm.rv(t)))
+        q.pc += [vm.ty(r) == vm.TAG["int"], vm.kind(r) == vm.FINITE, vm.rv(r) == z3.ToReal(trunc)]
+        I.U.well_typed(r)
+        out.append((q, Sym(r)))
+    return out
+
+
 def h_tuple(I, st, fv, args, kwargs, ctx):
     if not args:
         return [(st, TupV([]))]
@@ -558,6 +594,7 @@ def install(I):
     L["hasattr"] = h_hasattr
     L["getattr"] = h_getattr
     L["setattr"] = h_setattr
+    L["new:int"] = h_int
     L["new:tuple"] = h_tuple
     L["new:list"] = h_list
     L["new:dict"] = h_dict
